@@ -42,7 +42,9 @@ func WeightedMedian(weightedTimes []*WeightedTime, totalVotingPower int64) (res 
 		if weightedTimes[j] == nil {
 			return true
 		}
-		return weightedTimes[i].Time.UnixNano() < weightedTimes[j].Time.UnixNano()
+		// NOTE: do not compare UnixNano() values: they wrap around for instants
+		// outside the years 1678..2262, which a vote timestamp may well be.
+		return weightedTimes[i].Time.Before(weightedTimes[j].Time)
 	})
 
 	for _, weightedTime := range weightedTimes {
